@@ -75,8 +75,12 @@ def run_case(wd, plugins, span_first=False, later_lives=()):
                 return p
             setattr(m, 'P%d' % i, factory)
             names.append('%s.P%d' % (m.__name__, i))
+            # the switch PLUGIN_<NAME> in its forms: text (as the environment gives it) or a bool (as code gives it);
+            # a plugin that is loaded has no switch at all, or one that says yes
             if rec['load'] == 'inactive':
-                custom['PLUGIN_%s' % pname(i)] = 'false'
+                custom['PLUGIN_%s' % pname(i)] = 'false' if i % 2 else False
+            elif rec['load'] == 'ok' and i % 3:
+                custom['PLUGIN_%s' % pname(i)] = 'True' if i % 3 == 1 else True
         # the first half plays the built-in plugin list, the rest is configured by the user: one combined order
         nb = len(names) // 2
         plugin_mod.DEEP_PLUGINS = names[:nb]
@@ -93,9 +97,11 @@ def run_case(wd, plugins, span_first=False, later_lives=()):
                     # the application switches plugins on/off by configuration and starts the agent again
                     for i, rec in enumerate(life_plugins, 1):
                         if rec['load'] == 'inactive':
-                            cfg._ConfigService__custom['PLUGIN_%s' % pname(i)] = 'false'
+                            cfg._ConfigService__custom['PLUGIN_%s' % pname(i)] = False if i % 2 else 'false'
                         elif rec['load'] == 'ok':
                             cfg._ConfigService__custom.pop('PLUGIN_%s' % pname(i), None)
+                            if i % 2:
+                                cfg._ConfigService__custom['PLUGIN_%s' % pname(i)] = True
                     for p in insts.values():
                         del p.calls[:]
                         del p.spans[:]
